@@ -208,6 +208,14 @@ func enumConfigs() []Scenario {
 			sc.ReadMode = ModeStale
 			sc.Warmup = true
 		}),
+		/* 18 */ mk(func(sc *Scenario) {
+			// the leader's store is unreachable and an earlier call of the same sender already went through a proxy:
+			// the region remembers that proxy when the call under test starts
+			sc.Forwarding = true
+			sc.Liveness = []string{"unreachable"}
+			sc.DownOverride = true
+			sc.Warmup = true
+		}),
 	}
 }
 
